@@ -10,59 +10,9 @@
 From Coq Require Import List NArith ZArith Bool.
 Import ListNotations.
 Require Import Verif.Lib.Wire Verif.Lib.Text Verif.Lib.Percent Verif.Lib.Utf8 Verif.Lib.C09Base.
+Require Export Verif.Model.C09_base.
 Require Import Verif.Gen.Facts_C09.
 Open Scope N_scope.
-
-(* ------------------------------------------------------------------ data *)
-Inductive ipaddr :=
-| IP4 (parts : list N)       (* dotted decimal: map(chr, map(int, ip.split('.'))) *)
-| IP6 (t : text).            (* ':' in ip: the text itself *)
-
-(* Python values a user id can have *)
-Inductive uval := VStr (t : text) | VInt (z : Z) | VBytes (b : list N).
-
-Record cfg := mkCfg {
-  secret : text; cookie_name : text; secure : bool; include_ip : bool;
-  timeout : option Z; reissue_time : option Z; max_age : option Z;
-  http_only : bool; path : text; wild_domain : bool; parent_domain : bool;
-  domain : option text; hashalg : text; samesite : option text }.
-
-Record req := mkReq {
-  cookie : option text;        (* request.cookies.get(cookie_name) *)
-  remote_addr : ipaddr;        (* environ['REMOTE_ADDR'] *)
-  cur_domain : text;           (* request.domain *)
-  now : Z;                     (* floor of time_mod.time() / helper.now *)
-  half : bool }.               (* the clock reads now + 0.5 (fractional clocks at half-second resolution) *)
-
-(* twice the clock value: comparisons against integer timestamps are made on doubled values *)
-Definition now2 (r : req) : Z := (2 * now r + (if half r then 1 else 0))%Z.
-
-(* arguments handed to CookieProfile.get_headers (one header per domain; there is one domain) *)
-Record ck := mkCk {
-  ck_name : text; ck_value : option text; ck_domain : option text; ck_max_age : option Z;
-  ck_path : text; ck_secure : bool; ck_httponly : bool; ck_samesite : option text }.
-
-Inductive fields := FOk (digest : text) (ts : Z) (userid tokens user_data : text) | FBad.
-Inductive pres := POk (ts : Z) (userid : text) (tokens : list text) (user_data : text) | PBad.
-Inductive idres := INone | ISome (ts : Z) (u : uval) (tokens : list text) (user_data : text) | IRaise.
-
-Record state := mkSt { reissued : bool; revoked : bool; callbacks : list (list ck) }.
-Definition st0 : state := mkSt false false [].
-
-Inductive op := OIdentify | ORemember (u : uval) (ma : option Z) (toks : list text) | OForget.
-Inductive out := OutId (r : idres) | OutHdr (h : option (list ck)).    (* None: the call raised *)
-
-(* ip text -> address form used by calculate_digest (parts must be plain decimal <= 255) *)
-Definition parse_part (s : text) : option N :=
-  match s with
-  | [] => None
-  | _ => if forallb (fun c => (48 <=? c) && (c <=? 57)) s
-         then match py_int (fun _ => 63) 10 s with Some z => if (z <? 256)%Z then Some (Z.to_N z) else None | None => None end
-         else None
-  end.
-Definition classify_ip (ip : text) : option ipaddr :=
-  if memN 58 ip then (if is_bytes ip then Some (IP6 ip) else None)
-  else match map_opt parse_part (split_on 46 ip) with Some ps => Some (IP4 ps) | None => None end.
 
 Section Oracles.
 Variable H : text -> list N -> text.
@@ -118,8 +68,6 @@ Definition parse_fields (alg : text) (ticket : text) : fields :=
       end
   end.
 
-(* util.strings_differ on the UTF-8 bytes of both strings *)
-Definition strings_differ (a b : list N) : bool := negb (text_eqb a b).
 
 Definition parse_ticket (sec : text) (ticket : text) (ip : ipaddr) (alg : text) : pres :=
   match parse_fields alg ticket with
@@ -131,8 +79,6 @@ Definition parse_ticket (sec : text) (ticket : text) (ip : ipaddr) (alg : text) 
   end.
 
 (* ------------------------------------------------------------------ _get_cookies *)
-Definition truthy (o : option text) : bool := match o with Some (_ :: _) => true | _ => false end.
-
 Definition pick_domain (c : cfg) (r : req) : option text :=
   if truthy (domain c) then domain c
   else if parent_domain c && Nat.ltb 1 (count_char 46 (cur_domain r))
@@ -151,13 +97,6 @@ Definition rest_ok (s : text) : bool :=
 Definition valid_token (t : text) : bool :=
   is_ascii t && match t with c :: r => memN c tok_first && rest_ok r | [] => false end.
 
-Definition apply_enc (k : enckind) (u : uval) : option text :=
-  match k, u with
-  | EStr, VInt z => Some (dec_of_Z z)
-  | EB64Utf8, VStr t => if forallb valid_scalar t then Some (b64encode (encode t)) else None
-  | EB64, VBytes b => Some (b64encode b)
-  | _, _ => None
-  end.
 Definition encode_userid (u : uval) : option (text * text) :=      (* (encoding name, encoded) *)
   let '(tag, k) := match u with VInt _ => enc_int | VStr _ => enc_str | VBytes _ => enc_bytes end in
   match apply_enc k u with Some e => Some (tag, e) | None => None end.
@@ -180,24 +119,6 @@ Definition remember (c : cfg) (r : req) (u : uval) (ma : option Z) (toks : list 
 (* ------------------------------------------------------------------ identify *)
 Definition starts_typename (d : text) : option text := strip_prefix userid_typename d.
 
-Definition apply_dec (k : deckind) (u : uval) : option uval :=       (* None = the decoder raised *)
-  let b64 (u : uval) : option (list N) :=
-    match u with
-    | VStr t => if is_bytes t then b64decode t else None
-    | VBytes b => b64decode b
-    | VInt _ => None
-    end in
-  match k with
-  | DInt => match u with
-            | VStr t => option_map VInt (py_int uni_tr 10 t)
-            | VBytes b => option_map VInt (py_int (fun _ => 63) 10 b)
-            | VInt z => Some (VInt z)
-            end
-  | DUtf8 => match u with VBytes b => option_map VStr (decode b) | _ => None end
-  | DB64 => option_map VBytes (b64 u)
-  | DB64Utf8 => match b64 u with Some b => option_map VStr (decode b) | None => None end
-  end.
-
 (* for datum in filter(None, user_data.split('|')): ... *)
 Fixpoint decode_userid (data : list text) (u : uval) : option uval :=
   match data with
@@ -207,15 +128,13 @@ Fixpoint decode_userid (data : list text) (u : uval) : option uval :=
       | [] => decode_userid r u
       | _ => match starts_typename d with
              | Some ty => match lookup_text ty decoders with
-                          | Some k => match apply_dec k u with Some u' => decode_userid r u' | None => None end
+                          | Some k => match apply_dec uni_tr k u with Some u' => decode_userid r u' | None => None end
                           | None => decode_userid r u
                           end
              | None => decode_userid r u
              end
       end
   end.
-
-Definition nonempty (t : text) : bool := match t with [] => false | _ => true end.
 
 Definition timed_out (c : cfg) (ts n2 : Z) : bool :=       (* n2: twice the clock value *)
   match timeout c with
@@ -379,6 +298,24 @@ Definition msgs_op (c : cfg) (r : req) (o : op) : list (list N) :=
 
 End Oracles.
 
+(* ================================================================== the regenerated program as a whole *)
+(* one request operation / a sequence, executed by the functions REGENERATED from the source (Gen/Facts_C09.v) *)
+Definition gen_step (H : text -> list N -> text) (dsz : text -> nat) (uni : N -> N)
+           (c : cfg) (r : req) (st : state) (o : op) : state * out :=
+  match o with
+  | OIdentify => let '(st', res) := gen_identify H dsz uni c r st in (st', OutId res)
+  | ORemember u ma toks => let '(st', h) := gen_remember H c r st u ma toks in (st', OutHdr h)
+  | OForget => let '(st', h) := gen_forget c r st in (st', OutHdr h)
+  end.
+
+Fixpoint gen_run_ops (H : text -> list N -> text) (dsz : text -> nat) (uni : N -> N)
+         (c : cfg) (r : req) (st : state) (ops : list op) : state * list out :=
+  match ops with
+  | [] => (st, [])
+  | o :: rest => let '(st1, x) := gen_step H dsz uni c r st o in
+                 let '(st2, xs) := gen_run_ops H dsz uni c r st1 rest in (st2, x :: xs)
+  end.
+
 (* ================================================================== wire glue *)
 Definition lookup_H (tbl : list (text * list N * text)) (alg : text) (msg : list N) : text :=
   match find (fun e => text_eqb (fst (fst e)) alg && text_eqb (snd (fst e)) msg) tbl with
@@ -500,13 +437,13 @@ Definition origin_cookie (Hf : text -> list N -> text) (o : origin) : option tex
   match encode_userid (o_u o) with
   | Some (tag, enc) =>
       if forallb valid_token (o_toks o)
-      then Some (cookie_value Hf (o_alg o) (o_ip o) (o_t0 o) (o_secret o) enc (o_toks o) (userid_typename ++ tag))
+      then Some (gen_ticket_cookie_value Hf (o_alg o) (o_ip o) (o_t0 o) (o_secret o) enc (o_toks o) (userid_typename ++ tag))
       else None
   | None => None
   end.
 
 (* case = [cfg; req; ops; origin?; [dsz table; H table; uni table]]
-   answer = [model; spec; missing oracle queries] *)
+   answer = [answers of the REGENERATED program; spec; missing oracle queries] *)
 Definition run_C09 (v : val) : val :=
   ret_or_bad (
     match v with
@@ -516,10 +453,10 @@ Definition run_C09 (v : val) : val :=
         olet dt := get_list_of get_drow dt in olet ht := get_list_of get_Hrow ht in
         olet ut := get_list_of get_urow ut in
         let Hf := lookup_H ht in let dz := lookup_dsz dt in let ur := lookup_uni ut in
-        let '(st, outs) := run_ops Hf dz ur c r st0 ops in
+        let '(st, outs) := gen_run_ops Hf dz ur c r st0 ops in
         let resp := response_cookies st in
         let fed := flat_map out_values outs ++ values_of resp in
-        let fb := map (fun v => identify_pre Hf dz ur (no_reissue c) (with_cookie r v)) fed in
+        let fb := map (fun v => snd (gen_identify Hf dz ur (no_reissue c) (with_cookie r v) st0)) fed in
         let oc := match org with Some o => origin_cookie Hf o | None => None end in
         (* ---- spec side *)
         let ck0 := match cookie r with Some x => x | None => [] end in
